@@ -1215,4 +1215,150 @@ theorem bbox_ignores_hole_witness :
     norm_num
   · simp [g, coordsIter, Poly.coords]
 
+/-! ## 6. `extremes` reports the first coordinates attaining the bounds -/
+
+/-- `e` names the *first* coordinate of `l` that minimises the key `k`: the coordinate sits at
+the index, no coordinate has a smaller key, every earlier one has a strictly larger key. -/
+def FirstMin (k : Pt → Rat) (l : List Pt) (e : Extreme) : Prop :=
+  l[e.index]? = some e.coord ∧ (∀ p ∈ l, k e.coord ≤ k p) ∧
+    (∀ j q, j < e.index → l[j]? = some q → k e.coord < k q)
+
+private def upd (k : Pt → Rat) (e : Extreme) (i : Nat) (c : Pt) : Extreme :=
+  if k c < k e.coord then ⟨i, c⟩ else e
+
+private theorem firstMin_step (k : Pt → Rat) (l : List Pt) (e : Extreme) (c : Pt)
+    (h : FirstMin k l e) : FirstMin k (l ++ [c]) (upd k e l.length c) := by
+  obtain ⟨h1, h2, h3⟩ := h
+  have hlt : e.index < l.length := by
+    rcases Nat.lt_or_ge e.index l.length with h | h
+    · exact h
+    · rw [List.getElem?_eq_none h] at h1; cases h1
+  unfold upd
+  by_cases hc : k c < k e.coord
+  · rw [if_pos hc]
+    refine ⟨by simp, ?_, ?_⟩
+    · intro p hp
+      rcases List.mem_append.1 hp with hp | hp
+      · exact le_of_lt (lt_of_lt_of_le hc (h2 p hp))
+      · simp only [List.mem_singleton] at hp; subst hp; exact le_refl _
+    · intro j q hj hq
+      simp only at hj
+      rw [List.getElem?_append_left hj] at hq
+      exact lt_of_lt_of_le hc (h2 q (List.mem_of_getElem? hq))
+  · rw [if_neg hc]
+    refine ⟨by rw [List.getElem?_append_left hlt]; exact h1, ?_, ?_⟩
+    · intro p hp
+      rcases List.mem_append.1 hp with hp | hp
+      · exact h2 p hp
+      · simp only [List.mem_singleton] at hp; subst hp; exact not_lt.1 hc
+    · intro j q hj hq
+      rw [List.getElem?_append_left (lt_trans hj hlt)] at hq
+      exact h3 j q hj hq
+
+private def AllFirst (l : List Pt) (o : Outcome) : Prop :=
+  FirstMin Pt.x l o.xMin ∧ FirstMin Pt.y l o.yMin ∧
+  FirstMin (fun p => -p.x) l o.xMax ∧ FirstMin (fun p => -p.y) l o.yMax
+
+private theorem extremesStep_eq (o : Outcome) (i : Nat) (c : Pt) :
+    extremesStep o (i, c) =
+      ⟨upd Pt.x o.xMin i c, upd Pt.y o.yMin i c,
+       upd (fun p => -p.x) o.xMax i c, upd (fun p => -p.y) o.yMax i c⟩ := by
+  simp only [extremesStep, upd, neg_lt_neg_iff, gt_iff_lt]
+  by_cases h1 : c.x < o.xMin.coord.x <;> by_cases h2 : c.y < o.yMin.coord.y <;>
+    by_cases h3 : o.xMax.coord.x < c.x <;> by_cases h4 : o.yMax.coord.y < c.y <;>
+    simp [h1, h2, h3, h4]
+
+private theorem allFirst_step (l : List Pt) (o : Outcome) (c : Pt) (h : AllFirst l o) :
+    AllFirst (l ++ [c]) (extremesStep o (l.length, c)) := by
+  rw [extremesStep_eq]
+  exact ⟨firstMin_step _ l _ c h.1, firstMin_step _ l _ c h.2.1,
+    firstMin_step _ l _ c h.2.2.1, firstMin_step _ l _ c h.2.2.2⟩
+
+private theorem allFirst_fold : ∀ (rest pre : List Pt) (o : Outcome), AllFirst pre o →
+    AllFirst (pre ++ rest) ((enumFrom' pre.length rest).foldl extremesStep o)
+  | [], pre, o, h => by simpa [enumFrom'] using h
+  | c :: rest, pre, o, h => by
+      have := allFirst_fold rest (pre ++ [c]) _ (allFirst_step pre o c h)
+      simpa [enumFrom'] using this
+
+private theorem firstMin_singleton (k : Pt → Rat) (p : Pt) : FirstMin k [p] ⟨0, p⟩ := by
+  refine ⟨rfl, ?_, ?_⟩
+  · intro q hq; simp only [List.mem_singleton] at hq; subst hq; exact le_refl _
+  · intro j q hj; simp at hj
+
+private theorem extremesOf_allFirst (cs : List Pt) (o : Outcome) (h : extremesOf cs = some o) :
+    AllFirst cs o := by
+  cases cs with
+  | nil => simp [extremesOf] at h
+  | cons p rest =>
+    simp only [extremesOf, Option.some.injEq] at h
+    have := allFirst_fold rest [p] ⟨⟨0, p⟩, ⟨0, p⟩, ⟨0, p⟩, ⟨0, p⟩⟩
+      ⟨firstMin_singleton _ p, firstMin_singleton _ p, firstMin_singleton _ p, firstMin_singleton _ p⟩
+    simp only [List.length_singleton, List.singleton_append] at this
+    rw [← h]; exact this
+
+/-- [T] `extremes` is `None` exactly when there are no coordinates. -/
+theorem extremesOf_none_iff (cs : List Pt) : extremesOf cs = none ↔ cs = [] := by
+  cases cs <;> simp [extremesOf]
+
+/-- [T] each of the four reported extremes sits at the index it names, attains the bound
+(no coordinate is smaller / larger in that component), and its index is the *first* one
+attaining it (every earlier coordinate is strictly inside). -/
+theorem extremes_attain (cs : List Pt) (o : Outcome) (h : extremesOf cs = some o) :
+    (cs[o.xMin.index]? = some o.xMin.coord ∧ (∀ p ∈ cs, o.xMin.coord.x ≤ p.x) ∧
+      (∀ j q, j < o.xMin.index → cs[j]? = some q → o.xMin.coord.x < q.x)) ∧
+    (cs[o.yMin.index]? = some o.yMin.coord ∧ (∀ p ∈ cs, o.yMin.coord.y ≤ p.y) ∧
+      (∀ j q, j < o.yMin.index → cs[j]? = some q → o.yMin.coord.y < q.y)) ∧
+    (cs[o.xMax.index]? = some o.xMax.coord ∧ (∀ p ∈ cs, p.x ≤ o.xMax.coord.x) ∧
+      (∀ j q, j < o.xMax.index → cs[j]? = some q → q.x < o.xMax.coord.x)) ∧
+    (cs[o.yMax.index]? = some o.yMax.coord ∧ (∀ p ∈ cs, p.y ≤ o.yMax.coord.y) ∧
+      (∀ j q, j < o.yMax.index → cs[j]? = some q → q.y < o.yMax.coord.y)) := by
+  obtain ⟨hx, hy, hX, hY⟩ := extremesOf_allFirst cs o h
+  refine ⟨hx, hy, ⟨hX.1, ?_, ?_⟩, ⟨hY.1, ?_, ?_⟩⟩
+  · intro p hp; exact neg_le_neg_iff.1 (hX.2.1 p hp)
+  · intro j q hj hq; exact neg_lt_neg_iff.1 (hX.2.2 j q hj hq)
+  · intro p hp; exact neg_le_neg_iff.1 (hY.2.1 p hp)
+  · intro j q hj hq; exact neg_lt_neg_iff.1 (hY.2.2 j q hj hq)
+
+/-- Non-vacuity, with ties: (0,0),(4,0),(4,3),(0,3),(0,0) — x-min is index 0 (not 3 or 4),
+x-max index 1 (not 2), y-max index 2 (not 3). -/
+example : ∃ o, extremesOf [⟨0, 0⟩, ⟨4, 0⟩, ⟨4, 3⟩, ⟨0, 3⟩, ⟨0, 0⟩] = some o ∧
+    o.xMin.index = 0 ∧ o.yMin.index = 0 ∧ o.xMax.index = 1 ∧ o.yMax.index = 2 := by
+  refine ⟨_, rfl, ?_⟩
+  simp only [enumFrom', List.foldl, extremesStep]
+  norm_num
+
+/-- [T] for a geometry: `extremes` works on the exterior traversal, is `None` exactly when
+`bounding_rect` is, … -/
+theorem extremes_none_iff (g : Geom) : extremes g = none ↔ boundingRect g = none := by
+  rw [extremes, extremesOf_none_iff, bbox_none_iff]
+
+/-- [T] … and the four reported coordinates attain exactly the bounds `bounding_rect` reports. -/
+theorem extremes_eq_bbox (g : Geom) (hv : rectsValid g = true) (o : Outcome) (mn mx : Pt)
+    (ho : extremes g = some o) (hb : boundingRect g = some (mn, mx)) :
+    o.xMin.coord.x = mn.x ∧ o.yMin.coord.y = mn.y ∧ o.xMax.coord.x = mx.x ∧ o.yMax.coord.y = mx.y := by
+  obtain ⟨⟨a1, a2, _⟩, ⟨b1, b2, _⟩, ⟨c1, c2, _⟩, ⟨d1, d2, _⟩⟩ := extremes_attain _ o ho
+  have hs := bbox_spec g hv
+  rw [hb] at hs
+  have mx' : IsMinMax ((exteriorCoords g).map Pt.x) o.xMin.coord.x o.xMax.coord.x := by
+    refine ⟨?_, List.mem_map.2 ⟨_, List.mem_of_getElem? a1, rfl⟩,
+      List.mem_map.2 ⟨_, List.mem_of_getElem? c1, rfl⟩⟩
+    intro v hv
+    obtain ⟨p, hp, rfl⟩ := List.mem_map.1 hv
+    exact ⟨a2 p hp, c2 p hp⟩
+  have my' : IsMinMax ((exteriorCoords g).map Pt.y) o.yMin.coord.y o.yMax.coord.y := by
+    refine ⟨?_, List.mem_map.2 ⟨_, List.mem_of_getElem? b1, rfl⟩,
+      List.mem_map.2 ⟨_, List.mem_of_getElem? d1, rfl⟩⟩
+    intro v hv
+    obtain ⟨p, hp, rfl⟩ := List.mem_map.1 hv
+    exact ⟨b2 p hp, d2 p hp⟩
+  have ux := mx'.unique hs.1
+  have uy := my'.unique hs.2
+  exact ⟨ux.1, uy.1, ux.2, uy.2⟩
+
+example : ∀ o, extremes (.polygon ⟨[⟨0, 0⟩, ⟨4, 0⟩, ⟨4, 3⟩, ⟨0, 3⟩, ⟨0, 0⟩], []⟩) = some o →
+    ∀ mn mx, boundingRect (.polygon ⟨[⟨0, 0⟩, ⟨4, 0⟩, ⟨4, 3⟩, ⟨0, 3⟩, ⟨0, 0⟩], []⟩) = some (mn, mx) →
+    o.xMin.coord.x = mn.x :=
+  fun o ho mn mx hb => (extremes_eq_bbox _ (by decide) o mn mx ho hb).1
+
 end Geo.Proofs.C19
